@@ -193,6 +193,16 @@ InvJar ==
                 /\ NeededEncl(jar, nests) \subseteq op.created
                 /\ op.created = MayCreate(jar, nests)                             \* as coded: created before the rule is tested
                 /\ LET alts == LawJar(jar, nests).names.anyof IN \E i \in 1..Len(alts) : alts[i] = AsMap(op.names)
+(* as coded: the same result, except that created classes are no class entries of the jar *)
+InvJarAsCoded ==
+    IsCase("jar") =>
+        LET op == NestJarOp(JJar, JNests)
+            ac == NestJarOpAsCoded(JJar, JNests)
+        IN JarPre(JJar, JNests) =>
+            /\ ac.stray = op.created /\ ac.names = op.names \ op.created
+            /\ \A c \in ac.names : ac.classes[c] = op.classes[c]
+            /\ (NeededEncl(JJar, JNests) = {} <=> NamesLaw(JJar, JNests, ac.names))       \* the law fails exactly when a needed class was created
+InvAsCodedJarLaw == IsCase("jar") => (JarPre(JJar, JNests) => JarLawWith(JJar, JNests, OutOf(NestJarOpAsCoded(JJar, JNests)), TRUE))   \* not claimed: MC_Nest_ascoded.cfg
 (* agreement with the mappings that cover the jar *)
 JCover == CoverTree(DOMAIN JJar \cup NeededEncl(JJar, JNests))
 InvAgree ==
